@@ -9,11 +9,13 @@ git checkout -q -- src 2>/dev/null; git stash list >/dev/null
 rm -f tests/seeded_*.rs
 cp $out/demo_test.rs tests/$name.rs
 miri=$(python3 -c "import json;print(json.load(open('$out/meta.json')).get('miri_only',False))")
+# a demonstration that needs another build configuration (--release / --no-default-features)
+flags=$(python3 -c "import json;print(json.load(open('$out/meta.json')).get('demo_flags','') or '')")
 run_demo() {
   if [ "$miri" = "True" ]; then
     MIRIFLAGS="-Zmiri-disable-isolation -Zmiri-ignore-leaks" timeout 1200 cargo +nightly miri test --offline --test $name >/tmp/seed-$id-demo.log 2>&1
   else
-    timeout 600 cargo test --offline --test $name -- --test-threads=1 >/tmp/seed-$id-demo.log 2>&1
+    timeout 900 cargo test --offline $flags --test $name -- --test-threads=1 >/tmp/seed-$id-demo.log 2>&1
   fi
   echo $?
 }
